@@ -63,37 +63,56 @@ every live buffer has exactly one owner, internal pointers point into the owner'
 /-- `copy_balanced`: `sqfs_copy` of any live object of a balanced heap through the (repaired) hooks succeeds (no
 allocation failure injected), yields a fresh object, and the heap is balanced again with the user holding exactly
 one reference to the copy — for every kind, every object graph, every history that led to `h`. -/
-theorem copy_balanced (n : Nat) (h : Heap) (U : Nat → Nat) (o : Nat)
-    (hb : Balanced h U) (hbud : h.budget = none) (hl : (h.objs o).isSome) (hn : o < n) :
-    ∃ h' c, sqfsCopy desc n h o = (h', some c) ∧ h.objs c = none ∧ U c = 0 ∧
+theorem copy_balanced (h : Heap) (U : Nat → Nat) (o : Nat)
+    (hb : Balanced h U) (hbud : h.budget = none) (hl : (h.objs o).isSome) :
+    ∃ h' c, sqfsCopyTop desc h o = (h', some c) ∧ h.objs c = none ∧ U c = 0 ∧
       Balanced h' (fun y => if y = c then 1 else U y) := by
-  obtain ⟨h', c, he, hb', _, hfresh⟩ := sqfsCopy_bal desc desc_wellformed n h U [] [] o hb hbud hl hn
+  rcases hr : sqfsCopyTop desc h o with ⟨h', r⟩
+  obtain ⟨hsome, hres⟩ := sqfsCopy_bal desc desc_wellformed h.nobj h U [] [] o hb hl (hb.bound o hl) h' r hr
+  obtain ⟨c, rfl⟩ := Option.isSome_iff_exists.mp (hsome hbud)
+  obtain ⟨hb', hfresh, _⟩ := hres
   have hnone : h.objs c = none := by
     cases hv : h.objs c with
     | none => rfl
     | some _ => have := hb.bound c (by simp [hv]); omega
   have hU : U c = 0 := (hb.dead c (Or.inl hnone)).1
-  refine ⟨h', c, he, hnone, hU, ?_⟩
+  refine ⟨h', c, rfl, hnone, hU, ?_⟩
   have := hb'.pendingToUser
   rw [hU] at this
   exact this
+
+/-- `copy_fail_safe`: whichever allocation inside `sqfs_copy` fails (`k` allocations succeed, the next one does
+not) — in the hook itself or in a nested `sqfs_copy` — a well-formed hook returns NULL or a good copy, never
+crashes, and after a NULL the heap is balanced for exactly the references the user held before: the original and
+everything it references are untouched, nothing is leaked. -/
+theorem copy_fail_safe (h : Heap) (U : Nat → Nat) (o k : Nat) (hb : Balanced h U) (hl : (h.objs o).isSome) :
+    (sqfsCopyTop desc { h with budget := some k } o).1.crash = none ∧
+    match (sqfsCopyTop desc { h with budget := some k } o).2 with
+    | none => Balanced (sqfsCopyTop desc { h with budget := some k } o).1 U
+    | some c => Balanced (sqfsCopyTop desc { h with budget := some k } o).1 (fun y => if y = c then U c + 1 else U y) := by
+  rcases hr : sqfsCopyTop desc { h with budget := some k } o with ⟨h', r⟩
+  obtain ⟨_, hres⟩ := sqfsCopy_bal desc desc_wellformed h.nobj { h with budget := some k } U [] [] o
+    (hb.setBudget _) hl (hb.bound o hl) h' r hr
+  cases r with
+  | none => exact ⟨hres.ok, hres⟩
+  | some c => exact ⟨hres.1.ok, hres.1.pendingToUser⟩
 
 /-- `release_safe`: the user releases references in **any order and interleaving** (`ds` lists the objects
 dropped, each at most as often as it is held): `sqfs_drop` never calls a NULL hook, never touches or destroys a
 freed object, never frees a buffer twice (the heap does not crash), and the heap stays balanced for what is
 still held. With `copy_balanced` this covers original and copy in either order. -/
-theorem release_safe (n : Nat) (h : Heap) (U : Nat → Nat) (ds : List Nat)
-    (hb : Balanced h U) (hc : ∀ x, ds.count x ≤ U x) (hn : ∀ x ∈ ds, x < n) :
-    (ds.foldl (drop n) h).crash = none ∧ Balanced (ds.foldl (drop n) h) (fun x => U x - ds.count x) :=
-  have := Bal.dropAll n ds hb hc hn
+theorem release_safe (h : Heap) (U : Nat → Nat) (ds : List Nat)
+    (hb : Balanced h U) (hc : ∀ x, ds.count x ≤ U x) :
+    (ds.foldl sqfsDrop h).crash = none ∧ Balanced (ds.foldl sqfsDrop h) (fun x => U x - ds.count x) :=
+  have := Bal.dropAllTop ds hb hc
   ⟨this.ok, this⟩
 
 /-- both release orders of original and copy, spelled out -/
-theorem release_safe_either_order (n : Nat) (h : Heap) (U : Nat → Nat) (o c : Nat)
-    (hb : Balanced h U) (ho : 1 ≤ U o) (hc : 1 ≤ U c) (hne : o ≠ c) (hon : o < n) (hcn : c < n) :
-    (drop n (drop n h o) c).crash = none ∧ (drop n (drop n h c) o).crash = none ∧
-    Balanced (drop n (drop n h o) c) (fun x => U x - [o, c].count x) ∧
-    Balanced (drop n (drop n h c) o) (fun x => U x - [c, o].count x) := by
+theorem release_safe_either_order (h : Heap) (U : Nat → Nat) (o c : Nat)
+    (hb : Balanced h U) (ho : 1 ≤ U o) (hc : 1 ≤ U c) (hne : o ≠ c) :
+    (sqfsDrop (sqfsDrop h o) c).crash = none ∧ (sqfsDrop (sqfsDrop h c) o).crash = none ∧
+    Balanced (sqfsDrop (sqfsDrop h o) c) (fun x => U x - [o, c].count x) ∧
+    Balanced (sqfsDrop (sqfsDrop h c) o) (fun x => U x - [c, o].count x) := by
   have cnt : ∀ x, [o, c].count x ≤ U x ∧ [c, o].count x ≤ U x := by
     intro x
     by_cases h1 : x = o
@@ -105,15 +124,15 @@ theorem release_safe_either_order (n : Nat) (h : Heap) (U : Nat → Nat) (o c : 
       · have e1 : ¬ o = x := fun e => h1 e.symm
         have e2 : ¬ c = x := fun e => h2 e.symm
         simp [List.count_cons, e1, e2]
-  have h1 := release_safe n h U [o, c] hb (fun x => (cnt x).1) (by simp [hon, hcn])
-  have h2 := release_safe n h U [c, o] hb (fun x => (cnt x).2) (by simp [hon, hcn])
+  have h1 := release_safe h U [o, c] hb (fun x => (cnt x).1)
+  have h2 := release_safe h U [c, o] hb (fun x => (cnt x).2)
   exact ⟨h1.1, h2.1, h1.2, h2.2⟩
 
 /-- `no_leak`: once every reference the user held has been released, no object and no buffer is left -/
-theorem no_leak (n : Nat) (h : Heap) (U : Nat → Nat) (ds : List Nat)
-    (hb : Balanced h U) (hc : ∀ x, ds.count x = U x) (hn : ∀ x ∈ ds, x < n) :
-    (∀ x, (ds.foldl (drop n) h).objs x = none) ∧ (∀ b, (ds.foldl (drop n) h).bufs b = none) :=
-  (release_safe n h U ds hb (fun x => Nat.le_of_eq (hc x)) hn).2.empty_of_no_refs (fun x => by simp [hc x])
+theorem no_leak (h : Heap) (U : Nat → Nat) (ds : List Nat)
+    (hb : Balanced h U) (hc : ∀ x, ds.count x = U x) :
+    (∀ x, (ds.foldl sqfsDrop h).objs x = none) ∧ (∀ b, (ds.foldl sqfsDrop h).bufs b = none) :=
+  (release_safe h U ds hb (fun x => Nat.le_of_eq (hc x))).2.empty_of_no_refs (fun x => by simp [hc x])
 
 /-- reference counts are exact at every moment: in a balanced heap an object's count is the number of references
 the user holds plus the number of slots of live objects that point to it — so the grabs a copy took on the shared
@@ -177,7 +196,7 @@ example : ∃ h U, Balanced h U ∧ h.budget = none ∧ (h.objs 4).map (·.refs)
     simp [e, h0]
 
 /-- … and copying that reader, then releasing original and copy in either order, is covered -/
-example : ∃ h' c, sqfsCopy desc 64 (construct envHeap .dirReader 0 1).1 4 = (h', some c) ∧ c = 7 := by
+example : ∃ h' c, sqfsCopyTop desc (construct envHeap .dirReader 0 1).1 4 = (h', some c) ∧ c = 7 := by
   exact ⟨_, _, rfl, by decide⟩
 
 example : idRun (idCopy ⟨128, [5, 7]⟩) [.add 7, .add 9, .get 2] = [(0, 1), (0, 2), (0, 9)] := by decide
